@@ -65,7 +65,10 @@ def kitchen_sink(rng, gated: set, idx: int) -> dict:
     for mi in range(rng.randint(3, 8)):
         home = rng.choice(pkgs)
         name = rng.choice(["mod", "_mod", "helpers", "types", "io"]) + f"_{mi}"
-        parts = [sn.PRELUDE]
+        form = rng.choice(sn.MODULE_DOCSTRING_FORMS)
+        if form is not None and "*/" in form and "doc:text:has-comment-close" in gated:
+            form = None
+        parts = [sn.prelude_with(form)]
         exported = []
         for feat, src in rng.sample(usable, rng.randint(8, 20)):
             if feat == "func:dunder-module-level" and any("__getattr__" in p for p in parts):
